@@ -10,7 +10,9 @@ Record case := mk {
   c_reqs : list request;
   c_default : option call;
   c_dedupe : bool;
-  c_obs : result (list entry * list (nat * nat))
+  c_obs : result (list entry * list (nat * nat));
+  c_autop : list nat;                 (* tasks declared autoprint=True *)
+  c_printed : list nat                (* positions of the executions whose return value appeared on stdout *)
 }.
 
 Definition sig_of (sigs : list (nat * params)) (t : nat) : params :=
@@ -33,11 +35,21 @@ Definition obs_equiv (a b : result (list entry * list (nat * nat))) : bool :=
   | _, _ => false
   end.
 
+Definition autop_of (l : list nat) (t : nat) : bool := existsb (Nat.eqb t) l.
+
+Definition is_ok {A} (r : result A) : bool := match r with Ok _ => true | Err _ => false end.
+
 Definition corr (c : case) : bool :=
-  obs_equiv (execute (sig_of (c_sigs c)) (eqk_of (c_eqk c)) (c_reqs c) (c_default c) (c_dedupe c)) (c_obs c).
+  obs_equiv (execute (sig_of (c_sigs c)) (eqk_of (c_eqk c)) (c_reqs c) (c_default c) (c_dedupe c)) (c_obs c) &&
+  (negb (is_ok (c_obs c)) ||
+   list_eqb Nat.eqb (printed (eqk_of (c_eqk c)) (autop_of (c_autop c)) (c_reqs c) (c_default c) (c_dedupe c))
+            (c_printed c)).
 
 Definition spec (c : case) : bool :=
-  spec_ok (sig_of (c_sigs c)) (c_reqs c) (c_default c) (c_dedupe c) (c_obs c).
+  spec_ok (sig_of (c_sigs c)) (c_reqs c) (c_default c) (c_dedupe c) (c_obs c) &&
+  (negb (is_ok (c_obs c)) ||
+   print_ok entry_eqb (sig_of (c_sigs c)) (autop_of (c_autop c)) (c_reqs c) (c_default c) (c_dedupe c)
+            (run_once []) (c_printed c)).
 
 (** inside the guard of the partial theorem: every two calls of the session
     that are effectively identical are also literally identical *)
@@ -53,7 +65,10 @@ Definition guard (c : case) : bool :=
     expectation substituted (used for attribution only) *)
 (** F-C04: calls are compared literally (tasks by identity) *)
 Definition adj_literal (c : case) : bool :=
-  obs_equiv (execute (sig_of (c_sigs c)) (fun t => t) (c_reqs c) (c_default c) (c_dedupe c)) (c_obs c).
+  obs_equiv (execute (sig_of (c_sigs c)) (fun t => t) (c_reqs c) (c_default c) (c_dedupe c)) (c_obs c) &&
+  (negb (is_ok (c_obs c)) ||
+   list_eqb Nat.eqb (printed (fun t => t) (autop_of (c_autop c)) (c_reqs c) (c_default c) (c_dedupe c))
+            (c_printed c)).
 
 Fixpoint run_once_by (eqb : entry -> entry -> bool) (executed : list entry) (l : list entry) : list entry :=
   match l with
@@ -77,6 +92,10 @@ Definition adj_classes (c : case) : bool :=
                    (if c_dedupe c
                     then run_once_by (fun a b => Nat.eqb (eqk (fst a)) (eqk (fst b)) && kw_eqb (snd a) (snd b)) [] order
                     else order) log &&
-          results_ok log results
+          results_ok log results &&
+          print_ok (fun a b => Nat.eqb (eqk (fst a)) (eqk (fst b)) && kw_eqb (snd a) (snd b)) sig
+                   (autop_of (c_autop c)) (c_reqs c) (c_default c) (c_dedupe c)
+                   (run_once_by (fun a b => Nat.eqb (eqk (fst a)) (eqk (fst b)) && kw_eqb (snd a) (snd b)) [])
+                   (c_printed c)
       end
   end.
